@@ -80,10 +80,10 @@ Section Fails.
 
   (* a node all of whose results are empty is refined by the always-failing node *)
   Lemma ref_to_fail fwd n : l1_body_ok n = false ->
-    (forall f x r, okp (fst x) -> IR f n fwd x = Some r -> r = []) -> ref fwd n make_always_fails.
+    (forall f x r, oks okp x -> IR f n fwd x = Some r -> r = []) -> ref fwd n make_always_fails.
   Proof.
     intros Hns Hall. split; [|apply rstep_nol1; exact Hns].
-    apply (rres_fleO ix unicode utf16 h okp fwd _ _ 0%nat). intros [|f] x r Hx E; [discriminate|].
+    apply (rres_fleS ix unicode utf16 h okp fwd _ _ 0%nat). intros [|f] x r Hx E; [discriminate|].
     rewrite Nat.add_0_r. rewrite (Hall _ _ _ Hx E). apply ir_fail_eq.
   Qed.
 
@@ -102,7 +102,7 @@ Section Fails.
     inversion Hal as [|c0 l0 Hac Hall]; subst.
     destruct (obindm (IR f c fwd) xs) as [ys|] eqn:Eb; [|discriminate].
     destruct (match_always_fails c) eqn:Hc.
-    - rewrite (obindm_all_nilP (oks okp) _ (fun x r0 => fails_res c Hc f fwd x r0) xs ys Hx Eb) in E. rewrite cat_nil in E.
+    - rewrite (obindm_all_nilP (oks okp) _ (fun x r0 Hx0 => fails_res c Hc f fwd x r0 (proj1 Hx0)) xs ys Hx Eb) in E. rewrite cat_nil in E.
       inversion E; reflexivity.
     - eapply IH; [exact Hex|exact Hall| |exact E].
       eapply (obindm_okl okp (oks okp)); [|exact Hx|exact Eb]. intros x r0 Hxx Er.
@@ -129,7 +129,7 @@ Section Fails.
         apply ref_to_fail; [reflexivity|]. intros [|f] x r Hx Er; [discriminate|]. rewrite ir_alt_eq in Er.
         destruct (IR f n1 (negb lb) x) as [u|] eqn:Eu; [|discriminate].
         destruct (IR f n2 (negb lb) x) as [v|] eqn:Ev; [|discriminate].
-        rewrite (fails_res n1 H1 _ _ _ _ Hx Eu), (fails_res n2 H2 _ _ _ _ Hx Ev) in Er. inversion Er; reflexivity.
+        rewrite (fails_res n1 H1 _ _ _ _ (proj1 Hx) Eu), (fails_res n2 H2 _ _ _ _ (proj1 Hx) Ev) in Er. inversion Er; reflexivity.
       + split; [|split; [exact Hq2|split; [exact Ha2|cbn [ng]; lia]]].
         split; [|apply rstep_nol1; reflexivity].
         apply (rres_fleO ix unicode utf16 h okp (negb lb) _ _ 0%nat). intros [|f] x r Hx Er; [discriminate|].
@@ -158,7 +158,7 @@ Section Fails.
       destruct (0 <? max_val max); cbn [negb] in Er; [|inversion Er; reflexivity].
       destruct (reset_groups (snd x) egs (ege - egs)) as [g1|]; [|discriminate].
       destruct (IR (S f) n (negb lb) (fst x, g1)) as [zs|] eqn:Ez; [|discriminate].
-      rewrite (fails_res n Hf _ _ (fst x, g1) _ Hx Ez) in Er. cbn [obindm] in Er. inversion Er; reflexivity.
+      rewrite (fails_res n Hf _ _ (fst x, g1) _ (proj1 Hx) Ez) in Er. cbn [obindm] in Er. inversion Er; reflexivity.
   Qed.
 
   Theorem fails_pass_sound fuel n n' : run_to_fixpoint propagate_early_fails fuel n = Ok n' -> PRel false n n'.
